@@ -70,6 +70,61 @@ func c04Check(cs c04Case) (kind, detail string) {
 			return r.Kind, r.Detail
 		}
 		return r.Kind, r.Detail
+	case "root":
+		// the operands are whole documents (nodes without a parent): `. * <b as a literal>` on document a, and
+		// `select(di == 0) * select(di == 1)` on documents a, b evaluated together; the documents' node graphs must not change
+		ref := refsem.Run(c04MulE(cs.Flags, refsem.Leaf("self"), &refsem.E{Op: "ref", V: ops[1].Copy()}), []*val.V{ops[0].Copy()})
+		for variant := 0; variant < 2; variant++ {
+			var nodes []*yqlib.CandidateNode
+			var expr string
+			if variant == 0 {
+				nodes = []*yqlib.CandidateNode{impl.Doc(ops[0])}
+				expr = c04MulE(cs.Flags, refsem.Leaf("self"), refsem.Lit(ops[1])).String()
+			} else {
+				for i, o := range ops {
+					n := impl.Doc(o)
+					n.EvaluateTogether = true
+					n.SetDocument(uint(i))
+					nodes = append(nodes, n)
+				}
+				expr = "select(di == 0) *" + cs.Flags + " select(di == 1)"
+			}
+			parsed, err, pan := impl.Parse(expr)
+			if err != nil || pan != nil {
+				return "parse-error", fmt.Sprintf("%s: %v %v", expr, err, pan)
+			}
+			before := impl.Dump(true, nodes...)
+			res, eerr, epan := impl.Eval(parsed, nodes...)
+			if epan != nil {
+				return "panic", fmt.Sprint(epan)
+			}
+			if after := impl.Dump(true, nodes...); after != before && eerr == nil {
+				return "operand-modified", fmt.Sprintf("evaluating %s changed the node graph of the input document(s):\n%s", expr, firstDiff(before, after))
+			}
+			if ref.Undef != "" {
+				continue
+			}
+			if ref.Err != "" {
+				if eerr == nil {
+					return "missing-error", fmt.Sprintf("%s: reference %s", expr, ref.Err)
+				}
+				continue
+			}
+			if eerr != nil {
+				return "unexpected-error", fmt.Sprintf("%s: yq: %v; reference %s", expr, eerr, ref.Results[0].String())
+			}
+			if len(res) != 1 || impl.ToV(res[0]).String() != ref.Results[0].String() {
+				var got []*val.V
+				for _, r := range res {
+					got = append(got, impl.ToV(r))
+				}
+				return "value", fmt.Sprintf("%s: yq [%s]; reference %s", expr, vlist(got), ref.Results[0].String())
+			}
+		}
+		if ref.Undef != "" {
+			return "undef", ref.Undef
+		}
+		return "", ""
 	case "reduce":
 		// N documents evaluated together: . as $i ireduce ({}; . * $i)  ==  left fold of the binary merge from {}
 		expr := ". as $i ireduce ({}; . *" + cs.Flags + " $i)"
@@ -162,13 +217,14 @@ func c04Run(c *fw.Ctx) error {
 	}
 	maps := c04Maps(n)
 	small := c04Maps(sn)
+	nEnum := len(maps)
 	if !c.Thorough() {
 		// a handful of deeper shapes so that the second nesting level is exercised on every change
 		for _, h := range []string{`{"a": {"b": 1, "c": [1]}}`, `{"a": {"b": {"c": 1}}}`, `{"a": [1, {"b": 1}], "b": null}`, `{"a": {"b": null}, "c": "s"}`, `{"a": {"c": 1}, "b": [1, "s"]}`, `{"b": {"a": {}}, "a": {"b": []}}`} {
 			maps = append(maps, fromJSONText(h))
 		}
 	}
-	c.Res.Bound = fmt.Sprintf("all ordered pairs of %d maps (<= %d nodes, depth <= 3, keys a b c, leaves null 1 \"s\" and sequences) x 16 flag subsets (binary form + operand immutability + identities); reduce form: all pairs and triples of %d maps (<= %d nodes) x 16 flags", len(maps), n, len(small), sn)
+	c.Res.Bound = fmt.Sprintf("all ordered pairs of %d maps (<= %d nodes, depth <= 3, keys a b c, leaves null 1 \"s\" and sequences) x 16 flag subsets (binary form on operands under keys, root form on whole documents (literal right operand; two documents evaluated together; quick: maps of <= 2 nodes and the hand-written deeper shapes), operand immutability, identities); reduce form: all pairs and triples of %d maps (<= %d nodes) x 16 flags", len(maps), n, len(small), sn)
 	var idx int64
 	emit := func(cs c04Case, order int64) {
 		kind, detail := c04Check(cs)
@@ -199,6 +255,9 @@ func c04Run(c *fw.Ctx) error {
 			}
 			for _, f := range c04Flags {
 				emit(c04Case{"binary", f, []string{a.JSON(), b.JSON()}}, int64(a.Size()+b.Size())*1e6+int64(i*len(maps)+j))
+				if c.Thorough() || (a.Size() <= 2 || i >= nEnum) && (b.Size() <= 2 || j >= nEnum) {
+					emit(c04Case{"root", f, []string{a.JSON(), b.JSON()}}, int64(a.Size()+b.Size())*1e6+int64(i*len(maps)+j))
+				}
 			}
 			if idx%4001 == 1 {
 				c.Sample(map[string]string{"form": "binary", "a": a.JSON(), "b": b.JSON(), "flags": "all 16"})
@@ -246,7 +305,7 @@ func init() {
 	registerLater(func() {
 		fw.Register(&fw.Check{
 			ID: "C04", Level: "model_checking",
-			Rule: "all ordered pairs (a, b) of nested maps up to the node bound x all 16 subsets of the flags + d ? n: `[(.x * .y), .x, .y]` on {x: a, y: b} against the reference merge, node-graph dump of the document unchanged by `.x * .y`, " +
+			Rule: "all ordered pairs (a, b) of nested maps up to the node bound x all 16 subsets of the flags + d ? n: `[(.x * .y), .x, .y]` on {x: a, y: b} against the reference merge, node-graph dump of the document unchanged by `.x * .y`, the same with whole documents as operands (`. * <literal b>` on a; `select(di == 0) * select(di == 1)` on a, b evaluated together), " +
 				"identities a*{} = a, {}*a = a, a*a = a; all pairs and triples of the smaller maps through `. as $i ireduce ({}; . * $i)` on documents evaluated together against the left fold of the reference; non-trivial = distinct case with a defined reference result",
 			Assumptions: []string{"reference merge: mc/internal/refsem/update.go (Merge); the region the property leaves open (map-vs-non-map or sequence-vs-scalar conflict with + ? n, and + with d) is Undef"},
 			Budget: func(t string) time.Duration {
